@@ -796,6 +796,34 @@ func c10ContainsKey(w *World, fn *ssa.Function, v ssa.Value, listing, certV ssa.
 		return false
 	}
 	eq, ok := throughCell(strip(rets[0].Results[0])).(*ssa.Call)
+	if ok && calleeName(eq) != "bytes.Equal" && len(eq.Call.Args) == 2 {
+		// a two-key comparison helper of the repository: sameKey(x, y) = bytes.Equal(x.Marshal(), y.Marshal())
+		if h := eq.Call.StaticCallee(); h != nil && w.InRepo(h) && len(h.Params) == 2 && len(h.Blocks) > 0 {
+			if hr := liveReturns(h); len(hr) == 1 && len(hr[0].Results) == 1 {
+				if he, isCall := throughCell(strip(hr[0].Results[0])).(*ssa.Call); isCall && calleeName(he) == "bytes.Equal" && len(he.Call.Args) == 2 {
+					marshalOfParam := func(a ssa.Value) int {
+						mcall, ok := throughCell(strip(a)).(*ssa.Call)
+						if !ok || !mcall.Call.IsInvoke() || mcall.Call.Method.Name() != "Marshal" {
+							return -1
+						}
+						for i, p := range h.Params {
+							if throughCell(strip(mcall.Call.Value)) == ssa.Value(p) {
+								return i
+							}
+						}
+						return -1
+					}
+					i0, i1 := marshalOfParam(he.Call.Args[0]), marshalOfParam(he.Call.Args[1])
+					if i0 >= 0 && i1 >= 0 && i0 != i1 {
+						x, y := eq.Call.Args[0], eq.Call.Args[1]
+						isElemV := func(v ssa.Value) bool { return throughCell(strip(v)) == ssa.Value(clo.Params[0]) }
+						isCertKeyV := func(v ssa.Value) bool { return strings.HasSuffix(w.Expr(strip(v)), w.Expr(certV)+".Key") }
+						return (isElemV(x) && isCertKeyV(y)) || (isElemV(y) && isCertKeyV(x))
+					}
+				}
+			}
+		}
+	}
 	if !ok || calleeName(eq) != "bytes.Equal" {
 		return false
 	}
